@@ -368,6 +368,10 @@ func runApi(t *tr.Trace, r *tr.Rand, n int) {
 	for i := 0; i < (n+1)/2; i++ {
 		runRandom(t, r, root, i)
 	}
+	// overlapping administrator updates, and groups loaded in memory
+	runLockstep(t, r, root)
+	runConcurrent(t, r, root, 30)
+	runLoaded(t, r, root)
 	// the HTTP part of C12 (lines that the C17 model ignores); the site
 	// stream loads groups into memory and therefore comes last
 	runC12Api(t, root)
